@@ -3,6 +3,12 @@
 import json, sys
 
 CHECKS = {
+ "C05": dict(cat="exploration", tech="exhaustive enumeration of all single-dimension deviations plus proptest sampling of the configuration product, each row executed as a real process (scripted buildpack through a symlinked executable name) and judged by an independent decision table over exit code, entry markers, decoded outputs and a snapshot differential",
+   text="Rows over executable name x argument count x buildpack.toml variants x presence of each CNB_* variable x scripted detect/build behaviour x pre-existing outputs x input faults are run for real; the decision table says whether buildpack code may be reached, which exit codes are allowed, how often the error handler runs, which output files must be written (decoded with tomllib and compared with the scripted result) and that everything else is byte-identical.",
+   note="`trace` feature off; argv/paths UTF-8; missing CNB_TARGET_DISTRO_* accepted either as not reaching buildpack code or as behaving normally; the decision table is the harness's reading of the buildpack API spec."),
+ "C06": dict(cat="exploration", tech="proptest-generated platform directories, plans, stores, descriptors and target variables fed to real detect/build executions of a context-dumping buildpack; field-by-field differential between the dump and the generated inputs; separate single-fault class for unrepresentable values",
+   text="The harness lays out generated inputs with its own TOML emitter, runs the real executable and compares every field of the dumped context (directories, target, platform env incl. symlinked files and odd names, plan metadata, descriptor with defaults, store) with what was supplied; cases carrying one value that cannot be represented must end in a reported error.",
+   note="Paths/argv UTF-8; trusted: the dump code of the scripted buildpack and the harness's emitter."),
  "C11": dict(cat="exploration", tech="proptest-generated layer trees (modes, every symlink kind, symlinked layer path) deleted through three public routes in a fresh worker process running unprivileged (uid 65534) and as root; lstat snapshot differential of everything outside the layer",
    text="Each generated scenario (layer tree + canary tree + sibling layers incl. prefix-sharing names) is built on disk, chowned, and one deletion route is executed in a worker that has dropped to an unprivileged uid so that permission bits bind; everything outside <layers>/<name>, <name>.toml and <name>.sbom.* must be bit-identical (content, mode, link target) afterwards, and after success the layer must be a real empty directory with no old entry.",
    note="A regular file at the layer path is not generated; errors are acceptable outcomes as long as nothing outside changed, except that a failure of the deletion itself on a real directory owned by the caller is a violation. Trusted: Linux/tmpfs permission semantics."),
